@@ -1,22 +1,82 @@
 """C39 — the pre-parameter pool never serves a parameter twice or an invalid one."""
 META = {
-    "disabled": True,
     "level": "model_checking",
-    "text": "TODO",
-    "note": "TODO",
-    "technique": "TLA+ spec of pool+persistence+worker, TLC exhaustive; behaviours replayed step by step on the real ParameterPool/Scheduler and preParamsStorage",
+    "text": "TLC exhaustively checks a model of generator.ParameterPool, its worker loop under Scheduler stop/resume, GetNow and the "
+            "persistence (every interleaving of generation, retrieval by up to 2 callers, failing Save/Delete/ReadAll, crashes before "
+            "and after each storage effect, restarts) against: no parameter handed out twice, never a nil/unsaved one, |pool| <= size, "
+            "removed from storage before use. TLC then generates behaviours of that model which are replayed step by step on the real "
+            "ParameterPool+Scheduler (pkg/generator) and on the real pool over preParamsStorage with tss-lib fixture parameters "
+            "(pkg/tecdsa/dkg); after every step storage, channel length, every returned value, scheduler state and the position of every "
+            "worker goroutine are compared with the model. Model checking is the right level: the property quantifies over fault "
+            "sequences and crash points that tests cannot enumerate.",
+    "note": "Trusted: the harness persistence (faults are injected at call granularity: a call fails without effect, or takes effect "
+            "and the process dies); goroutine positions are read from runtime.Stack dumps; Go's random select choice between "
+            "delivering and dropping for a cancelled worker is observed, not forced. Torn files are represented as unreadable entries "
+            "(what the encrypted persistence handle of production reports).",
+    "technique": "TLA+ spec of pool+worker+persistence, TLC exhaustive; TLC-generated behaviours replayed on real code with gated generateFn/persistence and crash injection",
     "design_ref": "DESIGN.md §4.6 C39",
 }
 SPEC = "specs/Pool"
 OVERLAY = {"internal/verifc39/engine.go": "pkg/generator/c39engine/engine.go"}
+ALL_ACTIONS = ["DoWTop", "DoWGenerate", "DoWGenerateNil", "DoWSaveOk", "DoWSaveFail", "DoWPush", "DoWDrop", "Stop", "Resume",
+               "DoGPop", "DoGPopEmpty", "DoGDeleteOk", "DoGDeleteFail", "DoRestart", "DoWSaveCrash", "DoGDeleteCrash"]
+
+
+def check_replay(ctx, go, name, needed, min_completed):
+    rep = go.reports.get(name)
+    if rep is None:
+        ctx.broken("harness report %s missing" % name)
+    cnt = rep.get("counters") or {}
+    if rep.get("divergences"):
+        return      # a violation is reported anyway; coverage of an aborted run means nothing
+    missing = [a for a in needed if cnt.get("step_" + a, 0) == 0]
+    if missing:
+        ctx.broken("replay %s never exercised: %s" % (name, missing))
+    if cnt.get("behaviours_completed", 0) < min_completed:
+        ctx.broken("replay %s completed only %d behaviours" % (name, cnt.get("behaviours_completed", 0)))
 
 
 def run(ctx):
-    g = ctx.tlc(SPEC, "Gen_Pool", cfg="Gen_Sim", mode="simulate", num=ctx.pick(300, 3000), depth=200,
-                label="Gen_Sim", dump_trace=False, timeout=900)
+    # 1. the contract model satisfies the property (exhaustive, bounded)
+    cfg = ctx.pick("MC_Contract", "MC_Thorough")
+    r = ctx.tlc(SPEC, "Pool", cfg=cfg, coverage=True, label=cfg, timeout=ctx.pick(600, 2400))
+    ctx.require_coverage(r, ALL_ACTIONS, cfg)
+    # 2. the variant that delivers whatever a failed Save returned violates it (documents the defect fixed in keep-core)
+    hz = ctx.tlc(SPEC, "Pool", cfg="MC_Hazard", label="MC_Hazard", expect=("violation",))
+    ctx.extra["hazard_violates"] = hz.violated
+    # 3. behaviours of the model replayed on the real pool + scheduler
+    g = ctx.tlc(SPEC, "Gen_Pool", cfg="Gen_Sim", mode="simulate", num=ctx.pick(220, 4000), depth=300,
+                label="Gen_Sim", dump_trace=False, timeout=1500)
     beh = ctx.read_emitted(g, "behaviours.ndjson")
-    ctx.note("generated %d behaviours" % len(beh))
+    if len(beh) < ctx.pick(150, 2500):
+        ctx.broken("behaviour generation produced only %d behaviours" % len(beh))
     go = ctx.gotest("pkg/generator", "^TestVerif_C39_Replay$", ["c39_test.go"], inputs={"behaviours.ndjson": beh},
                     extra_overlay=OVERLAY, label="replay_generator", timeout=ctx.pick(600, 3000))
     ctx.absorb(go)
-    return ctx.finish(level="model_checking", rule="TODO", assumptions=["TODO"], exhaustive=False)
+    check_replay(ctx, go, "replay_generator",
+                 ["WGenerate", "WGenerateNil", "WSaveOk", "WSaveFail", "WSaveCrash", "WPush", "WDrop", "Stop", "Resume",
+                  "GPop", "GPopEmpty", "GDeleteOk", "GDeleteFail", "GDeleteCrash", "Restart"], ctx.pick(40, 600))
+    # 4. the same on the real pool over the real preParamsStorage (no scheduler access from that package)
+    g2 = ctx.tlc(SPEC, "Gen_Pool", cfg="Gen_SimNoStop", mode="simulate", num=ctx.pick(110, 1500), depth=300,
+                 label="Gen_SimNoStop", dump_trace=False, timeout=1500)
+    beh2 = ctx.read_emitted(g2, "behaviours.ndjson")
+    if len(beh2) < ctx.pick(80, 1000):
+        ctx.broken("behaviour generation (storage) produced only %d behaviours" % len(beh2))
+    go2 = ctx.gotest("pkg/tecdsa/dkg", "^TestVerif_C39_ReplayStorage$", ["c39_test.go"], inputs={"behaviours.ndjson": beh2},
+                     extra_overlay=OVERLAY, label="replay_dkg", timeout=ctx.pick(900, 3000))
+    ctx.absorb(go2)
+    check_replay(ctx, go2, "replay_dkg",
+                 ["WGenerate", "WSaveOk", "WSaveFail", "WSaveCrash", "WPush", "GPop", "GPopEmpty", "GDeleteOk",
+                  "GDeleteFail", "Restart"], ctx.pick(40, 500))
+    return ctx.finish(
+        level="model_checking",
+        rule="TLC explores every interleaving of the pool model within the bounds of %s (pool size 2, %s). Conformance: "
+             "seeded random behaviours of the same model (30 steps + drain through GetNow), with priority for the steps the worker "
+             "goroutine takes on its own, are forced on the real code through gates in generateFn and the persistence; the full "
+             "observable state is compared after every step; non-trivial = behaviours containing a storage fault, crash, restart or "
+             "scheduler stop." % (cfg, ctx.pick("3 values, 1 getter, 1 fault of each kind", "4 values, 2 getters, 2 restarts, 2 stops")),
+        assumptions=["storage faults happen at call granularity (fail without effect / effect then crash)",
+                     "a cancelled worker's random select branch is observed, not forced (both outcomes accepted as the model allows)",
+                     "values generated by generateFn are distinct (as tss-lib pre-parameters are)",
+                     "the pkg/tecdsa/dkg replay cannot stop the scheduler (unexported), so Stop/Resume is only replayed in pkg/generator"],
+        exhaustive=False)
